@@ -66,6 +66,30 @@ def run(args):
     v = [okk for okk, _ in audit.validate(ck, [(srv, res), (srv, a1), (srv, a2), (srv, a3), (srv, a4)], diagnose=False)]
     print('TraceAudit :', v)
     ok &= v == [True, False, False, False, False]
+    # SSH-1 fallback and client audit (the behaviours added to SshAudit later)
+    s1, role1, x1 = c09.other_archetypes()['ssh1-fallback']
+    sc1 = c09.scenario(s1, extra_args=x1)
+    fr = runner.run_one(sc1)
+    fsrv = audit.srv_of(s1, True, dh, argv=sc1['argv'])
+    second = [e for e in fr['events'] if e.get('n') == 2]
+    f1 = copy.deepcopy(fr)
+    closes = [e for e in fr['events'] if e.get('ev') == 'close']
+    f1['events'] = [e for e in fr['events'] if e.get('ev') != 'close'] + [dict(e, n=3) for e in second if e.get('ev') != 'close'] \
+        + closes + [dict(e, n=3) for e in second if e.get('ev') == 'close']                  # a third handshake attempt
+    f2 = copy.deepcopy(fr)
+    for e in f2['events']:
+        if e.get('ev') == 'read' and e.get('got') == 'data' and bytes.fromhex(e.get('head', '')).startswith(b'Protocol'):
+            e['head'] = b'Something'.hex()                                                # fell back although the peer never sent the mismatch text
+    cl, role2, x2 = c09.other_archetypes()['client']
+    sc2 = c09.scenario(cl, role='client')
+    cr = runner.run_one(sc2)
+    csrv = audit.srv_of(cl, True, dh, argv=sc2['argv'], role='client')
+    c1 = drop(cr, lambda e: e.get('ev') == 'unlisten')                                     # a listening socket never closed
+    c2 = copy.deepcopy(cr)
+    c2['events'] = [e for e in c2['events'] if e.get('ev') != 'accept'] + []               # talks to a peer nobody accepted
+    v = [okk for okk, _ in audit.validate(ck, [(fsrv, fr), (fsrv, f1), (fsrv, f2), (csrv, cr), (csrv, c1), (csrv, c2)], diagnose=False)]
+    print('TraceAudit (fallback, client audit):', v)
+    ok &= v == [True, False, False, True, False, False]
     # --- TraceMulti ----------------------------------------------------------
     S = c07.servers()
     tg = [('server', S['terrapin']), ('server', S['plain'])]
@@ -105,7 +129,7 @@ def seeds():
             repo = os.path.join(tmp, 'repo')
             subprocess.run(['git', 'clone', '-q', '--no-hardlinks', '/repo', repo], check=True)
             subprocess.run(['git', 'apply', os.path.join(d, 'patch.diff')], cwd=repo, check=True)
-            env = dict(os.environ, VERIF_REPO=repo)
+            env = dict(os.environ, VERIF_REPO=repo, VERIF_NO_EVIDENCE='1')
             p = subprocess.run([os.path.join(common.ROOT, 'check'), chk, 'quick'], cwd=common.ROOT, env=env, stdout=subprocess.PIPE, stderr=subprocess.STDOUT, text=True)
             caught = p.returncode == 1 and 'VIOLATION property=%s' % chk in p.stdout
             print('seed %-28s %s by %s' % (sid, 'caught' if caught else 'MISSED', chk))
